@@ -405,7 +405,7 @@ class YAMLSpecification(Specification):
         validator = jsonschema.Draft7Validator(schema)
         errors = validator.iter_errors(instance)
         for error in errors:
-            path = ".".join(list(error.path))
+            path = ".".join(str(key) for key in error.path)
             if error.validator == "additionalProperties":
                 unrecognized = (
                     re.search(r"'.+'", error.message).group(0).strip("'")
@@ -426,7 +426,7 @@ class YAMLSpecification(Specification):
                 raise jsonschema.ValidationError(
                     f"In {parent_key}, {path} must be of type "
                     f"'{expected_type}', but found "
-                    f"'{type(instance[path]).__name__}'."
+                    f"'{type(error.instance).__name__}'."
                 )
 
             elif error.validator == "required":
@@ -454,7 +454,7 @@ class YAMLSpecification(Specification):
                 )
 
             elif error.validator == "anyOf":
-                path = ".".join(list(error.path))
+                path = ".".join(str(key) for key in error.path)
                 context_message = error.context[0].message
                 context_message = re.sub(
                     r"'.+' ", "'{0}' ".format(path), context_message
